@@ -111,6 +111,7 @@ type c07Gen struct {
 	seqs                               []string // anchors of sequences
 	scalars                            []string // anchors of scalars
 	multiMerge, aliasKey, nonStringKey bool
+	stringKeysOnly                     bool // half of the documents: string keys only, so yaml.v3's own merge resolution can judge them
 }
 
 var c07Keys = []string{"a", "b", "c", "k1", "k2", "x", "y", "name", "1", "true", "16", "1000", "8", "7", "0x10"}
@@ -175,8 +176,8 @@ func (g *c07Gen) mapping(depth int, anchor string) string {
 			merges++
 			continue
 		}
-		key := core.Pick(r, c07Keys)
-		if len(g.scalars) > 0 && r.Intn(8) == 0 {
+		key := core.Pick(r, g.keyPool())
+		if len(g.scalars) > 0 && r.Intn(8) == 0 && !g.stringKeysOnly {
 			key = "*" + core.Pick(r, g.scalars) + " "
 			g.aliasKey = true
 		}
@@ -195,8 +196,15 @@ func (g *c07Gen) mapping(depth int, anchor string) string {
 	return a + "{" + strings.Join(parts, ", ") + "}"
 }
 
+func (g *c07Gen) keyPool() []string {
+	if g.stringKeysOnly {
+		return c07Keys[:8]
+	}
+	return c07Keys
+}
+
 func (g *c07Gen) mappingNoAnchor() string {
-	key := core.Pick(g.r, c07Keys)
+	key := core.Pick(g.r, g.keyPool())
 	if nonStringKeys[key] {
 		g.nonStringKey = true
 	}
@@ -314,7 +322,7 @@ func runC07(c *ctx) error {
 		n = 100000
 	}
 	for i := 0; i < n; i++ {
-		g := &c07Gen{r: rng}
+		g := &c07Gen{r: rng, stringKeysOnly: rng.Bool()}
 		src := g.document()
 		if i%250 == 3 {
 			// a document rejected while its keys are being collected (ordinary keys, then a null / non-scalar key),
